@@ -410,21 +410,35 @@ func c11Raw() []c11Fail {
 		r.w.Settle()
 	}()
 	for _, n := range []int{0, 1, 7, 100} {
-		for _, extra := range []int{0, 1, 4, 17} {
-			data := c11Data(byte(n+extra), n)
-			u := ref.BuildUDP(7777, c11RecvPort, data, r.pAddr, r.sAddr)
-			// IP payload longer than the UDP length field: trailing octets are not part of the datagram
-			u = append(u, bytes.Repeat([]byte{0xEE}, extra)...)
-			r.InjectIP(ref.ProtoUDP, u)
-			v, _, err := rcv.Read(nil)
-			if err != nil {
-				if extra == 0 {
-					fails = append(fails, c11Fail{"raw-not-delivered", fmt.Sprintf("well-formed datagram of %d bytes from the raw peer: Read returned %v", n, err)})
+		for _, extra := range []int{0, 1, 2, 4, 8, 12, 17} {
+			// trailing octets: garbage, or zeros (sender padding: the checksum over datagram +
+			// padding equals the datagram's), and the same without a UDP checksum
+			for _, variant := range []string{"garbage", "zeros", "garbage-nochecksum"} {
+				if extra == 0 && variant != "garbage" {
+					continue
 				}
-				continue // dropping an inconsistent packet whole is fine
-			}
-			if !bytes.Equal(v, data) {
-				fails = append(fails, c11Fail{"trailing-bytes-delivered", fmt.Sprintf("UDP datagram with length field %d inside an IP payload of %d bytes: Read returned %d bytes (%d octets beyond the datagram were handed to the application)", 8+n, 8+n+extra, len(v), len(v)-n)})
+				data := c11Data(byte(n+extra), n)
+				u := ref.BuildUDP(7777, c11RecvPort, data, r.pAddr, r.sAddr)
+				if variant == "garbage-nochecksum" {
+					u[6], u[7] = 0, 0
+				}
+				// IP payload longer than the UDP length field: trailing octets are not part of the datagram
+				fill := byte(0xEE)
+				if variant == "zeros" {
+					fill = 0
+				}
+				u = append(u, bytes.Repeat([]byte{fill}, extra)...)
+				r.InjectIP(ref.ProtoUDP, u)
+				v, _, err := rcv.Read(nil)
+				if err != nil {
+					if extra == 0 {
+						fails = append(fails, c11Fail{"raw-not-delivered", fmt.Sprintf("well-formed datagram of %d bytes from the raw peer: Read returned %v", n, err)})
+					}
+					continue // dropping an inconsistent packet whole is fine
+				}
+				if !bytes.Equal(v, data) {
+					fails = append(fails, c11Fail{"trailing-bytes-delivered", fmt.Sprintf("UDP datagram with length field %d inside an IP payload of %d bytes (%s): Read returned %d bytes (%d octets beyond the datagram were handed to the application)", 8+n, 8+n+extra, variant, len(v), len(v)-n)})
+				}
 			}
 		}
 	}
@@ -687,8 +701,8 @@ func c11Run(job, tier string, deadline time.Time) *engine.Result {
 			f := f
 			report(&f, map[string]interface{}{"job": job})
 		}
-		r.Execs, r.Transitions, r.Nontrivial = 16, 16, 16
-		r.Sample(map[string]interface{}{"raw": "UDP length field vs IP payload length: payload {0,1,7,100} x trailing octets {0,1,4,17}"})
+		r.Execs, r.Transitions, r.Nontrivial = 76, 76, 76
+		r.Sample(map[string]interface{}{"raw": "UDP length field vs IP payload length: payload {0,1,7,100} x trailing octets {0,1,2,4,8,12,17} x {garbage, zero padding, garbage without UDP checksum}"})
 	case "loopback":
 		for _, fam := range []string{"4", "6", "m"} {
 			for _, l := range []int{0, 1, 7, 8, 1000, 1472, 9000, 60000} {
